@@ -607,7 +607,7 @@ class AssociationSocket:
 
         return bytestream
 
-    def send(self, bytestream: bytes) -> None:
+    def send(self, bytestream: bytes) -> bool:
         """Try and send the data in `bytestream` to the remote.
 
         *Events Emitted*
@@ -633,6 +633,9 @@ class AssociationSocket:
         except Exception:
             # Evt17: Transport connection closed
             self.event_queue.put("Evt17")
+            return False
+
+        return True
 
     def _shutdown_socket(self) -> None:
         """Try to shutdown and close the socket."""
